@@ -153,7 +153,10 @@ def triage(ck, files):
                 continue
             for x in r['x']:
                 if x.get('e') == 'Race':
-                    sig = 'race:' + norm_var(x.get('var', '?'))
+                    # data race: the racing variable; other ThreadSanitizer reports (lock-order-inversion,
+                    # double lock, ...): the kind of report
+                    sig = ('race:' + norm_var(x.get('var', '?'))) if x.get('kind') == 'data-race' \
+                        else 'tsan:' + str(x.get('kind'))
                     seen[sig] = seen.get(sig, 0) + 1
                     if seen[sig] > 1:
                         continue
@@ -162,7 +165,11 @@ def triage(ck, files):
                                  '%s.tsan.txt' % (x.get('kind'), x.get('var'), x.get('mop0'), x.get('mop1'),
                                                   r.get('run'), os.path.basename(f), json.dumps(r.get('cfg')), kept))
                 else:
-                    ck.violation('stuck' if x.get('e') == 'Stuck' else 'x:%s' % x.get('e'), '%s#%d' % (kept, n),
+                    sig = 'stuck' if x.get('e') == 'Stuck' else 'x:%s' % x.get('e')
+                    seen[sig] = seen.get(sig, 0) + 1
+                    if seen[sig] > 1:
+                        continue
+                    ck.violation(sig, '%s#%d' % (kept, n),
                                  'no progress for the watchdog period (deadlock): %s; last host events %s; last DSP-thread '
                                  'events %s' % (json.dumps(x), json.dumps(r['h'][-2:]), json.dumps(r['d'][-4:])))
         if bad and keep:
